@@ -535,6 +535,9 @@ def energy_dependent_init(table):
     table.Lu.neutron.nsf_table = wavelength, bc_nat
     #table.Lu.neutron.total = 0.  # zap total cross section
 
+# Default neutron record for atoms without neutron data
+_MISSING = Neutron()
+
 def init(table, reload=False):
     """
     Loads the Rauch table from the neutron data book.
@@ -545,8 +548,10 @@ def init(table, reload=False):
     assert ('density' in table.properties and 'mass' in table.properties), \
         "Neutron table requires mass and density properties"
 
-    # Defaults for missing neutron information
-    missing = Neutron()
+    # Defaults for missing neutron information.  The same object is used by
+    # every table so that initializing one table does not change what the
+    # atoms without neutron data in another table return.
+    missing = _MISSING
     Isotope.neutron = missing
     Element.neutron = missing
 
